@@ -639,6 +639,9 @@ impl Space for Fresh {
 }
 
 pub fn space(tier: Tier, id: &str) -> Option<Box<dyn Space>> {
+    if let Some(r) = reversed_of(id, |base| space(tier, base)) {
+        return r;
+    }
     match id {
         "protect" => Some(Box::new(Protect { tier, cases: cases(tier) })),
         "freshness" => Some(Box::new(Fresh { tier, n: cases(tier).len() as u64 })),
@@ -670,7 +673,7 @@ fn run(ctx: &Ctx) -> i32 {
         eprintln!("MACHINERY: C15 oracle self-test failed: {}", e);
         return 2;
     }
-    let ids = ["protect", "freshness"];
+    let ids = ["protect", "freshness", "protect~rev"];
     let spaces = ids.iter().map(|id| (*id, space(ctx.tier, id).unwrap())).collect();
     let cs = cases(ctx.tier);
     let pws = passwords(ctx.tier);
